@@ -29,8 +29,7 @@ theorem quadraticSolve_size (a b c : Cx K) : (quadraticSolve a b c).size = 2 := 
 
 theorem cubicSolve_size (a b c d : Cx K) : (cubicSolve a b c d).size = 3 := by
   unfold cubicSolve
-  simp only
-  split <;> simp
+  simp only [apply_ite Array.size, List.size_toArray, List.length_cons, List.length_nil, ite_self]
 
 /-- closed-form paths: exactly `degree` values, refined or not -/
 theorem low_degree_length (c : Array (Cx K)) (refine : Bool) (h : 2 ≤ c.size ∧ c.size ≤ 4) :
